@@ -83,5 +83,7 @@ func init() {
 	register("C09", "", ruleFailFast)
 	register("XK", "debug: effect kinds", dumpKinds)
 	register("C07", "", ruleWholeBodyDecode)
+	register("C01", "", ruleHelperRegistration)
+	register("C02", "", ruleHelperRegistration)
 	register("X6", "debug: R6 over whole module", ruleErr(errScope{label: "all", pkgs: []string{"pebbles", "common", "executor", "format", "gqlerrors", "introspection", "merger", "planner", "queryer", "requests"}}))
 }
